@@ -18,6 +18,9 @@ pub struct Model {
     pub bank: u8,
     /// cases run on the current machine since its paging got locked
     pub locked_cases: u32,
+    /// ports (mask, value) claimed by a host I/O extender installed on this machine (timing and
+    /// contention of a port cycle do not depend on who answers it)
+    pub ext: Option<(u16, u16)>,
 }
 
 impl Model {
@@ -307,6 +310,9 @@ fn exec_case(ctx: &Ctx, m: &mut Machine, md: &mut Model, page: u8, opcode: u8, b
             md.locked_cases += 1;
             if md.locked_cases > 300 {
                 *m = Machine::new(Cfg::of(true));
+                if let Some(e) = md.ext {
+                    m.emu.set_io_extender(crate::host::LogExt::new(vec![e]));
+                }
                 md.bank = 0;
                 md.locked_cases = 0;
             }
@@ -354,7 +360,8 @@ fn exec_case(ctx: &Ctx, m: &mut Machine, md: &mut Model, page: u8, opcode: u8, b
                 &format!("contention:{}:{}", if md.is128 { "128k" } else { "48k" }, kinds.join("+")),
                 &what,
                 jobj! {"case"=>case_id,"is128"=>md.is128,"bank"=>md.bank,"page"=>page,"opcode"=>opcode,"t"=>t,"bytes"=>crate::json::hex(&bytes),
-                       "regs"=>rf_json(rf),"cycles"=>format!("{:?}", cy),"expected_end"=>expect,"observed_end"=>got},
+                       "regs"=>rf_json(rf),"cycles"=>format!("{:?}", cy),"expected_end"=>expect,"observed_end"=>got,
+                       "extender_mask"=>md.ext.map(|e| e.0 as i64).unwrap_or(0),"extender_value"=>md.ext.map(|e| e.1 as i64).unwrap_or(-1)},
             );
         }
     }
@@ -381,7 +388,13 @@ pub fn run(ctx: &Ctx) -> Evidence {
         let d = r.get("details").cloned().unwrap_or(J::Null);
         let is128 = matches!(d.get("is128"), Some(J::Bool(true)));
         let mut m = Machine::new(Cfg::of(is128));
-        let mut md = Model { is128, bank: 0, locked_cases: 0 };
+        let mut md = Model { is128, bank: 0, locked_cases: 0, ext: None };
+        let em = d.get("extender_mask").and_then(|x| x.as_i64()).unwrap_or(0);
+        if em != 0 {
+            let e = (em as u16, d.get("extender_value").and_then(|x| x.as_i64()).unwrap_or(0) as u16);
+            md.ext = Some(e);
+            m.emu.set_io_extender(crate::host::LogExt::new(vec![e]));
+        }
         let bank = d.get("bank").and_then(|x| x.as_i64()).unwrap_or(0) as u8;
         if is128 {
             m.out(0x7FFD, bank);
@@ -409,7 +422,13 @@ pub fn run(ctx: &Ctx) -> Evidence {
         let encs: Vec<(u8, u8)> = (0..7u8).flat_map(|p| (0..=255u8).map(move |o| (p, o))).filter(|(p, o)| is_instruction(*p, *o)).collect();
         for is128 in [false, true] {
             let mut m = Machine::new(Cfg::of(is128));
-            let mut md = Model { is128, bank: 0, locked_cases: 0 };
+            let mut md = Model { is128, bank: 0, locked_cases: 0, ext: None };
+            if sh % 3 == 1 {
+                // a quarter of all ports, of both parities and with every high byte, none of them the
+                // paging port or 0xFE: low-byte bits 4,3 == 0,1
+                md.ext = Some((0x0018, 0x0008));
+                m.emu.set_io_extender(crate::host::LogExt::new(vec![(0x0018, 0x0008)]));
+            }
             let per = n_random as usize / shards / 2;
             for i in 0..per {
                 let case_id = ((is128 as u64) << 40) | (sh * per + i) as u64;
